@@ -21,6 +21,22 @@ type Case struct {
 	N       int      `json:"n,omitempty"`
 	Clauses [][]int  `json:"clauses,omitempty"`
 	Constrs []gen.PC `json:"constrs,omitempty"`
+	CP      bool     `json:"cp,omitempty"` // every solver of the case runs with the cutting-planes strategy (decision 22)
+}
+
+// newSolver builds a solver with the case's options.
+func newSolver(c Case, pb *solver.Problem) *solver.Solver {
+	s := solver.New(pb)
+	s.CuttingPlanes = c.CP
+	return s
+}
+
+func withCP(g func(*rapid.T) Case) func(*rapid.T) Case {
+	return func(t *rapid.T) Case {
+		c := g(t)
+		c.CP = gen.Chance(t, 1, 4, "cuttingPlanes")
+		return c
+	}
 }
 
 func build(c Case) (*solver.Problem, error) {
@@ -74,7 +90,8 @@ func check(c Case, o *vf.Obs) error {
 	o.ClassIf(truth >= 16, "models>=16")
 
 	// 1. CountModels
-	s1 := solver.New(pb)
+	o.ClassIf(c.CP, "cutting-planes")
+	s1 := newSolver(c, pb)
 	got := s1.CountModels()
 	if got != truth {
 		return fmt.Errorf("CountModels = %d, the problem has %d models over %d variables", got, truth, n)
@@ -85,19 +102,19 @@ func check(c Case, o *vf.Obs) error {
 	}
 	// 1b. CountModels on a solver that has already solved the problem
 	pb1b, _ := build(c)
-	s1b := solver.New(pb1b)
+	s1b := newSolver(c, pb1b)
 	s1b.Solve()
 	if got := s1b.CountModels(); got != truth {
 		return fmt.Errorf("Solve then CountModels on the same solver = %d, the problem has %d models", got, truth)
 	}
 	// 2. Enumerate(nil, nil) on a fresh solver
 	pb2, _ := build(c)
-	if got := solver.New(pb2).Enumerate(nil, nil); got != truth {
+	if got := newSolver(c, pb2).Enumerate(nil, nil); got != truth {
 		return fmt.Errorf("Enumerate(nil) = %d, the problem has %d models", got, truth)
 	}
 	// 3. Enumerate(chan, nil): consumer in a goroutine, producer here (so a panic is recoverable)
 	pb3, _ := build(c)
-	s3 := solver.New(pb3)
+	s3 := newSolver(c, pb3)
 	ch := make(chan []bool)
 	var delivered [][]bool
 	done := make(chan struct{})
@@ -316,12 +333,12 @@ func init() {
 			Rule:    "3-SAT at ratio 3.0..4.2 and parity systems with n-9..n-3 constraints, n in 12..18: many models and real conflicts during enumeration" + tail},
 		vf.Sub[GuardedCase]{Name: "guarded-pigeonhole", Quick: 16, Thorough: 200, Gen: genGuarded, Check: checkGuarded, Floor: 0,
 			Rule: "pigeonhole PHP(6,5)/PHP(7,6) guarded by a variable g (g -> PHP, not g -> all pigeonhole variables false), one unit clause and 0..3 free variables: exactly 2^e models by construction; CountModels or Enumerate(chan) must refute PHP under g = true in the middle of the enumeration (hundreds of conflicts, restarts, reductions with a lowered limit); non-trivial = >=100 conflicts"},
-		vf.Sub[Case]{Name: "card-fan", Quick: 4000, Thorough: 40000, Gen: genCardFan, Check: check, Floor: 0.5,
+		vf.Sub[Case]{Name: "card-fan", Quick: 4000, Thorough: 40000, Gen: withCP(genCardFan), Check: check, Floor: 0.5,
 			Rule: "ParseCardConstrs: one or two cardinality constraints 'at least 3..4 of 6..9 literals' over 9..13 variables, a trigger variable whose binary clauses falsify 2..K+1 of the first K+1 literals of a constraint at once (in position order, reverse order or shuffled), a second one that makes spare literals true, 0..4 loose binary clauses" + tail},
-		vf.Sub[Case]{Name: "card", Quick: 8000, Thorough: 50000, Gen: genPB("card"), Check: check, Floor: 0.15,
+		vf.Sub[Case]{Name: "card", Quick: 8000, Thorough: 50000, Gen: withCP(genPB("card")), Check: check, Floor: 0.15,
 			Rule: "cardinality constraints (n<=8, <=4 constraints) via ParseCardConstrs" + tail},
-		vf.Sub[Case]{Name: "pb", Quick: 8000, Thorough: 50000, Gen: genPB("pb"), Check: check, Floor: 0.15,
-			Rule: "PB constraints (n<=8, <=4 constraints, coefficients of either sign) via ParsePBConstrs" + tail},
+		vf.Sub[Case]{Name: "pb", Quick: 8000, Thorough: 50000, Gen: withCP(genPB("pb")), Check: check, Floor: 0.15,
+			Rule: "PB constraints (n<=8, <=4 constraints, coefficients of either sign) via ParsePBConstrs; a quarter of the card-fan / card / pb cases under the cutting-planes strategy" + tail},
 	)
 }
 
